@@ -10,7 +10,8 @@ from props.c05 import Case, response, auto_ridx, mp_body, ct_header, prng
 
 PID = "C17"
 THEOREMS = ["C17_mpx_safe", "C17_get_boundary_safe", "C17_write_cb_safe", "C17_dlw_total", "C17_confinement",
-            "C17_verified", "C17_mismatch_zeroed", "C17_lit_contract"]
+            "C17_verified", "C17_mismatch_zeroed", "C17_lit_contract", "C17_session", "C17_session_valid_untouched",
+            "C17_reset_reestablishes", "C17_rescan_sound", "C17_rescan_restart"]
 ASSUMPTIONS = [
     "PARTIAL by design: the theorems cover index arithmetic and control flow of the model (every buffer read goes "
     "through a bounds-checked accessor; regex oracle under the contract 'group offsets lie inside the searched "
@@ -19,6 +20,11 @@ ASSUMPTIONS = [
     "the regex contract is met by Dl/LiteralMatcher.v (C17_lit_contract), which is compared with glibc regexec on every "
     "(pattern, string) pair of every case (coverage.literal_matcher_vs_glibc); that glibc itself obeys the contract on "
     "all inputs is trusted",
+    "sessions (Dl/Session.v): zck_dl_reset and zck_get_missing_range(zck,-1) are transcribed; the optional re-scan between "
+    "transfers (zck_find_valid_chunks + zck_reset_failed_chunks) is modelled by its SPECIFICATION (every flag recomputed from "
+    "the file: valid iff the extent is inside the file and hashes to the digest, else unknown; hash context finalised, "
+    "descriptor at the start of the data section), not by a transcription of validate_checksums (that is C09); the whole-data "
+    "checksum step of the scan is not modelled; model and code are compared on every session case including the scans",
     "same model, driver and harness as C05 (Dl/DlWrite.v, Dl/Multipart.v, ocaml/drv_c17.ml, harness/zh_c17.c)",
     "the transport stops at the first short return; continuing after zck_clear_error is exercised on the implementation "
     "only (sanitizer oracle), not compared with the model",
@@ -204,24 +210,77 @@ def gen_cases(tier, rng):
     return cases
 
 
+def gen_sessions(tier, rng):
+    """sessions on one zckDL for C17: a first transfer that breaks off, optionally a re-scan of the target, then a second
+    response that is complete, garbage, for another boundary, or truncated inside a part header; sometimes a third"""
+    from props.c05 import SCase, response_spans, runs_of
+    cases = []
+    thorough = tier == "thorough"
+    tables = [[(8, 1, 911), (7, 0, 912), (10, 0, 913), (5, 0, 914)],
+              [(7, 0, 921), (9, 1, 922), (6, 0, 923), (11, 0, 924)],
+              [(6, 1, 931), (5, 0, 932), (4, 1, 933), (9, 0, 934), (3, 0, 935)]]
+    def missing(chunks, done):
+        return [i for i, ch in enumerate(chunks) if ch[1] == 0 and ch[0] > 0 and i not in done]
+    for ti, chunks in enumerate(tables):
+        for mode in ("plain", "mp"):
+            want0 = missing(chunks, set())
+            m0 = "plain" if mode == "plain" and len(runs_of(want0, chunks)) == 1 else "mp"
+            h1, b1, e1 = response_spans(chunks, want0, 24, m0)
+            cuts = range(1, len(b1)) if (thorough or len(b1) < 60) else sorted(set(list(range(1, len(b1), 3)) + [e for e in e1.values()] + [e - 1 for e in e1.values()]))
+            for T in cuts:
+                done = {t for t in want0 if e1[t] <= T}
+                want1 = missing(chunks, done)
+                m1 = "plain" if mode == "plain" and len(runs_of(want1, chunks)) == 1 else "mp"
+                h2, b2, e2 = response_spans(chunks, want1, 24, m1)
+                seconds = [("good", h2, b2)]
+                k = T % 5
+                if k == 0:
+                    seconds.append(("garbage", h2, rng.rbytes(rng.randrange(1, 80))))
+                elif k == 1:
+                    seconds.append(("otherboundary", [ct_header(b"someOtherBoundary")], b2))
+                elif k == 2 and len(b2) > 8:
+                    seconds.append(("trunc-hdr", h2, b2[:rng.randrange(3, min(len(b2), 70))]))
+                elif k == 3:
+                    seconds.append(("mutant", h2, mutate(rng, b2, rng.randrange(1, 4))))
+                else:
+                    seconds.append(("noheaders", [], b2))
+                for nm, hh, bb in seconds:
+                    for rs in (False, True):
+                        parts2 = rand_parts(rng, len(bb))
+                        trs = [(h1, b1[:T], ("w", "k1", "k3")[T % 3]), (hh, bb, parts2, rs)]
+                        if nm != "good" and T % 2 == 0:
+                            # after the bad second response: reset, and the complete correct response for what is missing now
+                            trs.append((h2, b2, "k2", rs))
+                        c = SCase("sess17:%d:%s:cut=%d:%s:%s" % (ti, mode, T, nm, "rescan" if rs else "noscan"), chunks, trs,
+                                  kind="session")
+                        if nm == "good":
+                            c.expect = c05.expect_for(c)
+                        cases.append(c)
+    return cases
+
+
 def run(res, tier, only_case=None):
     rng = vlib.Rng(vlib.seed() + 17)
     res.rule = ("header lines: ~75 spellings of the boundary parameter (regex metacharacters, quotes, empty, 5000 chars, no CR, "
                 "NUL, 8-bit) ; bodies: ~45 hand-made malformed streams (truncated part headers at many positions, missing "
                 "terminators, inverted / zero-length / wrapping / 40-digit content-range, NUL in headers, data after the "
                 "closing delimiter) x whole/1/2/3/7-byte/random fragmentations, plus 3500 (thorough 90000) random mutants of "
-                "well-formed responses; 10% of the runs continue after zck_clear_error. every buffer is an exact-size heap "
+                "well-formed responses; 10% of the runs continue after zck_clear_error; sessions on one zckDL: first response "
+                "cut at (quick: every third, thorough: every) byte position, optional re-scan of the target (zck_find_valid_chunks + "
+                "zck_reset_failed_chunks), zck_dl_reset + new missing range, then a complete / garbage / foreign-boundary / truncated / "
+                "mutated second response, then the correct one; flags checked against file content after EVERY transfer. every buffer is an exact-size heap "
                 "block under ASan/UBSan. non-trivial = case whose body is not a well-formed response for its request")
     if only_case is not None:
         cases = c05.replay_cases(only_case)
         for c in cases:
             c.kind = "clr" if "clr" in c.opts else (c.kind or "replay")
     else:
-        cases = gen_cases(tier, rng)
+        cases = gen_cases(tier, rng) + gen_sessions(tier, vlib.Rng(vlib.seed() + 23))
     wd = vlib.scratch(PID)
     mo, io, asan, ierr, aerr = c05.run_all(cases, tier, wd, "C17")
     for k, c in enumerate(cases):
-        c.expect = None
+        if c.kind != "session":
+            c.expect = None
         c05.check_case(res, c, mo[k] if k < len(mo) else None, io[k], asan.get(k), pfx="c17",
                        compare_model=(c.kind != "clr"))
         if not c.name.startswith(("hdr:0:good", "ht")):
